@@ -446,8 +446,10 @@ impl MacModel {
                 Act::Call(m, ai, c) => {
                     let org_args;
                     let args = if matches!(m, Mac::Org | Mac::OrgOuter | Mac::TailOrg | Mac::OnlyOrg) {
-                        // positions must increase along the program: 0x100 per trace position
-                        org_args = vec![Arg::Expr(format!("{}", 0x100 * (i + 1)))];
+                        // positions must increase along the program: 0x100 per trace position (0x40 in
+                        // the long repetition programs, so that `.dw pc` still fits a word at the end)
+                        let step = if trace.len() > 200 { 0x40 } else { 0x100 };
+                        org_args = vec![Arg::Expr(format!("{}", step * (i + 1)))];
                         &org_args
                     } else {
                         &self.argsets[m][*ai]
